@@ -29,8 +29,20 @@ const TarFeatureFlags uint64 = CaFormatWith32BitUIDs |
 func Tar(ctx context.Context, w io.Writer, fs FilesystemReader) error {
 	enc := NewFormatEncoder(w)
 	buf := &fsBufReader{fs, nil}
-	_, err := tar(ctx, enc, buf, nil)
-	return err
+	if _, err := tar(ctx, enc, buf, nil); err != nil {
+		return err
+	}
+	// The archive is complete when the root entry and everything below it is
+	// encoded. An entry that's left over isn't inside the tree of the root
+	// entry, or arrived after its directory was closed. It can't be archived.
+	f, err := buf.Next()
+	if err == io.EOF {
+		return nil
+	}
+	if err != nil {
+		return err
+	}
+	return fmt.Errorf("unable to archive '%s', it is not inside the directory that is being archived or out of order", f.Path)
 }
 
 func tar(ctx context.Context, enc FormatEncoder, fs *fsBufReader, f *File) (n int64, err error) {
